@@ -37,10 +37,15 @@
    sandwich (equality where the bounds coincide) against real pytype output on every run.  The soundness
    theorem (Props/C01.v) is proved for both modes.  No hypothesis about the solver is used in any theorem.
 
-   Outside the model (covered only by the e2e differential, which is search): pytype's call cache
-   (_call_cache keyed by argument data), CPython's and pytype's folding of all-constant set/dict displays with
-   Python-equal elements, the deep-binding-product limit of builtin calls, classes, attributes, closures,
-   comprehensions, exceptions, builtin signatures. *)
+   Outside the model: (1) pytype's call cache (_call_cache keyed by argument data): [repeated_call_key] tells
+   the harness on which programs it can matter, and the lower bound is not required there; (2) CPython's and
+   pytype's folding of all-constant set/dict displays with Python-equal elements (the generator never emits two
+   equal literal keys/elements in one display); (3) the fall-back of builtin calls (isinstance, the __setitem__
+   of a dict display) to Any arguments when the deep binding product of an argument exceeds 1024 (the generator
+   keeps those operands at most one container deep); (4) everything that is not L0: classes, attributes,
+   closures, comprehensions, exceptions, builtin signatures - covered only by the e2e differential against
+   CPython, which is search, not proof.  The theorems below hold for every L0 program regardless of (1)-(3):
+   those only delimit where the correspondence with real pytype output is demanded. *)
 From Coq Require Import List ZArith Arith Bool Lia.
 Import ListNotations.
 Open Scope nat_scope.
